@@ -118,14 +118,16 @@ def run(module, cfg=None, workers=16, env=None, timeout=600, mode='mc', coverage
         prev = r.coverage.get(name, (0, 0))
         r.coverage[name] = (prev[0] + int(d), prev[1] + int(g))
     m = _INV_RE.search(out)
+    has_error = re.search(r'^Error:', out, re.M) is not None
     if m:
         r.violated = m.group(1)
-    elif 'is violated' in out and 'Error:' in out:
-        m2 = re.search(r'Error: (.*is violated.*)', out)
+    elif has_error and 'is violated' in out:
+        m2 = re.search(r'^Error: (.*is violated.*)', out, re.M)
         r.violated = m2.group(1) if m2 else 'property'
-    elif 'Error:' in out or 'Exception' in out and 'Finished' not in out:
+    elif has_error or ('Exception' in out and 'Finished' not in out):
         # any other error: parse error, evaluation error, assumption false ...
-        idx = out.find('Error:')
+        m3 = re.search(r'^Error:', out, re.M)
+        idx = m3.start() if m3 else -1
         r.error = out[idx:idx + 3000] if idx >= 0 else out[-3000:]
     elif not ms and not sim:
         r.error = 'no state statistics in TLC output:\n' + out[-3000:]
